@@ -345,7 +345,11 @@ class Run:
                 if used.get((ev, k), 0) >= per_kind or idx in chosen:
                     continue
                 e2 = json.loads(lines[idx])
-                if fn(e2) is False:
+                try:
+                    applicable = fn(e2)
+                except (KeyError, IndexError, TypeError, ValueError):
+                    applicable = False   # a frame without the field (e.g. a year whose conversion panicked): not this line
+                if applicable is False:
                     continue
                 chosen[idx] = (e2, prefix)
                 used[(ev, k)] = used.get((ev, k), 0) + 1
